@@ -4,15 +4,18 @@ from . import ref_ber
 from .ref_per import RefExcluded, choice_order
 
 
-def length_det(n):
-    """§8.6: length determinant."""
-    if n < 128:
+def length_det(n, ch=ref_ber.CANON):
+    """§8.6: length determinant (BASIC-OER need not use the shortest form)."""
+    r = ch.pick("len-nonminimal", 4)
+    if n < 128 and r != 1:
         return bytes([n])
-    b = n.to_bytes((n.bit_length() + 7) // 8, "big")
+    b = n.to_bytes(max(1, (n.bit_length() + 7) // 8), "big")
+    if r == 1:
+        b = b"\x00" * (1 + ch.pick("lenpad", 2)) + b if n >= 128 else b
     return bytes([0x80 | len(b)]) + b
 
 
-def enc_integer(rt, v):
+def enc_integer(rt, v, ch=ref_ber.CANON):
     c = rt.cons
     lb = ub = None
     if c is not None and not c.ext:         # §8.2.x: an extensible constraint is not OER-visible
@@ -28,9 +31,9 @@ def enc_integer(rt, v):
                     return v.to_bytes(w, "big", signed=True)
     if lb is not None and lb >= 0:
         b = v.to_bytes(max(1, (v.bit_length() + 7) // 8), "big")
-        return length_det(len(b)) + b
+        return length_det(len(b), ch) + b
     b = ref_ber.int_content(v)
-    return length_det(len(b)) + b
+    return length_det(len(b), ch) + b
 
 
 def fixed_size(size):
@@ -50,15 +53,15 @@ def oer_tag(tag):
     return bytes([c | 0x3f]) + ref_ber.base128(num)
 
 
-def enc(mod, t, v):
+def enc(mod, t, v, ch=ref_ber.CANON):
     rt = mod.resolve(t)
     k = rt.kind
     if k == "BOOLEAN":
-        return b"\xff" if v else b"\x00"
+        return (b"\xff", b"\x01", b"\x80")[ch.pick("bool-true", 3)] if v else b"\x00"
     if k == "NULL":
         return b""
     if k == "INTEGER":
-        return enc_integer(rt, v)
+        return enc_integer(rt, v, ch)
     if k == "ENUMERATED":
         if 0 <= v <= 127:
             return bytes([v])
@@ -66,7 +69,7 @@ def enc(mod, t, v):
         return bytes([0x80 | len(b)]) + b
     if k == "REAL":
         b = ref_ber.real_content(v)
-        return length_det(len(b)) + b
+        return length_det(len(b), ch) + b
     if k == "BITSTRING":
         if rt.named:
             raise RefExcluded("named-bit BIT STRING")
@@ -76,44 +79,44 @@ def enc(mod, t, v):
         fs = fixed_size(rt.size)
         if fs is not None:
             return data
-        return length_det(1 + nbytes) + bytes([nbytes * 8 - nbits]) + data
+        return length_det(1 + nbytes, ch) + bytes([nbytes * 8 - nbits]) + data
     if k == "OCTETSTRING":
         if fixed_size(rt.size) is not None:
             return bytes(v)
-        return length_det(len(v)) + bytes(v)
+        return length_det(len(v), ch) + bytes(v)
     if k in KM_STRINGS:
         b = ref_ber.str_octets(k, v)
         if fixed_size(rt.size) is not None:
             return b
-        return length_det(len(b)) + b
+        return length_det(len(b), ch) + b
     if k == "UTF8String":
         b = ref_ber.str_octets(k, v)
-        return length_det(len(b)) + b
+        return length_det(len(b), ch) + b
     if k in OPAQUE_KINDS:
-        return length_det(len(v)) + bytes(v)
+        return length_det(len(v), ch) + bytes(v)
     if k in TIME_KINDS:
         b = v.encode("ascii")
-        return length_det(len(b)) + b
+        return length_det(len(b), ch) + b
     if k in ("OID", "RELOID"):
         b = ref_ber.oid_content(v, k == "RELOID")
-        return length_det(len(b)) + b
+        return length_det(len(b), ch) + b
     if k == "SEQUENCE":
-        return enc_sequence(mod, rt, v)
+        return enc_sequence(mod, rt, v, ch)
     if k == "SET":
         raise RefExcluded("SET (asn1c has no OER codec for it)")
     if k == "CHOICE":
         name, av = v
         sel = [m for m in rt.members if m.name == name][0]
         chains = dict(zip([m.name for m in rt.members], ref_ber.member_chains(mod, rt)))
-        ch = chains[name]
-        if not ch:
+        tch = chains[name]
+        if not tch:
             raise RefExcluded("untagged CHOICE inside CHOICE")
-        body = enc(mod, sel.type, av)
+        body = enc(mod, sel.type, av, ch)
         if sel.ext:
-            body = length_det(len(body)) + body
-        return oer_tag(ch[0]) + body
+            body = length_det(len(body), ch) + body
+        return oer_tag(tch[0]) + body
     if k in ("SEQOF", "SETOF"):
-        parts = [enc(mod, rt.elem, x) for x in v]
+        parts = [enc(mod, rt.elem, x, ch) for x in v]
         if k == "SETOF" and len(set(parts)) > 1:
             raise RefExcluded("SET OF with distinct elements (COER ordering not re-derived)")
         n = len(parts)
@@ -122,7 +125,7 @@ def enc(mod, t, v):
     raise RefExcluded("kind " + k)
 
 
-def enc_sequence(mod, rt, v):
+def enc_sequence(mod, rt, v, ch=ref_ber.CANON):
     root = [m for m in rt.members if not m.ext]
     adds = [m for m in rt.members if m.ext]
 
@@ -130,8 +133,10 @@ def enc_sequence(mod, rt, v):
         if m.name not in v:
             return False
         if m.has_default and v[m.name] == m.default and type(v[m.name]) == type(m.default):
-            return False
+            return ch.pick("default-present", 3) == 1
         return True
+    pres = {m.name: present(m) for m in rt.members}
+    present = lambda m: pres[m.name]
     adds_present = [present(m) for m in adds]
     bits = []
     if rt.ext:
@@ -150,7 +155,7 @@ def enc_sequence(mod, rt, v):
     for m in root:
         if (m.optional or m.has_default) and not present(m):
             continue
-        out += enc(mod, m.type, v[m.name])
+        out += enc(mod, m.type, v[m.name], ch)
     if rt.ext and any(adds_present):
         n = len(adds)
         nbytes = (n + 7) // 8
@@ -158,13 +163,13 @@ def enc_sequence(mod, rt, v):
         for p in adds_present:
             val = (val << 1) | (1 if p else 0)
         val <<= nbytes * 8 - n
-        out += length_det(1 + nbytes) + bytes([nbytes * 8 - n]) + val.to_bytes(nbytes, "big")
+        out += length_det(1 + nbytes, ch) + bytes([nbytes * 8 - n]) + val.to_bytes(nbytes, "big")
         for m, p in zip(adds, adds_present):
             if p:
-                b = enc(mod, m.type, v[m.name])
-                out += length_det(len(b)) + b
+                b = enc(mod, m.type, v[m.name], ch)
+                out += length_det(len(b), ch) + b
     return out
 
 
-def encode(mod, t, v):
-    return enc(mod, t, v)
+def encode(mod, t, v, ch=ref_ber.CANON):
+    return enc(mod, t, v, ch)
